@@ -1161,9 +1161,9 @@ where
 
 impl DumpBytes for &str {
     fn dump_bytes(&self, buf: &mut [u8]) -> ControlResult<()> {
-        if !self.is_ascii() {
+        if !self.is_ascii() || self.contains('\0') {
             return Err(ControlError::InvalidData(
-                "string encoding must be ascii".into(),
+                "string must be ascii and must not contain NUL characters".into(),
             ));
         }
 
